@@ -12,7 +12,7 @@ LEVEL = ("Static structural conditions of storage fidelity: variant coverage of 
          " Added: the warm-up -> sampling switch of record_sample dominates every read of the draw's values (R8); no backend reaches around a BufWriter (R9)."
          " Added (round 4): per-dimension event counts of several chains are combined component-wise, never by ordering tuples (R12 = C15-R6 analysis)."
          " Added (round 5): event counts reported by a backend with a phase flag depend on that flag (R13; decided F14); ArrowBuilder::append_value never appends a null, the ndarray draw axis is exactly num_tune + num_draws long (R14). A backend that names statistic dimensions from Settings::stat_dims_all takes their sizes from Settings::stat_dim_sizes (R15, sibling agreement; decided F17)."
-         " Added (round 6): a builder setter of a storage configuration returns self with the named field set, never a rebuilt configuration (R16); the chunk grid of the Zarr arrays and the buffer length of the chains are one expression (R17 = C15-R12).")
+         " Added (round 6): a builder setter of a storage configuration returns self with the named field set, never a rebuilt configuration (R16); the chunk grid of the Zarr arrays and the buffer length of the chains are one expression (R17 = C15-R12). Every chunk shape handed to zarrs' ArrayBuilder passes through max(1), so zero-length coordinates / dimensions are stored by both Zarr backends (R18; decided F18).")
 EXPLANATION = ("COVER analysis over HIR match arms, slice-based lane labels in new_trace, ITER classification of HashMap iterations, "
                "EFF read/write inventory of StorageConfig fields, SCHEMA flattening of the six Stats types.")
 TRUSTED = ["rustc nightly HIR/MIR", "nutsfacts extractor", "rules/c14.py, rules/schema.py"]
@@ -1196,6 +1196,50 @@ def r16(F, R):
             R.ok("C14-R16", key, site, "returns self with the named field set")
     R.floor("C14-R16", 2)
 
+
+def r18(F, R):
+    R.rule("C14-R18", "an empty dimension is stored by every Zarr code path: the chunk shape given to `ArrayBuilder::new` (coordinates, draws, statistics; sync and async) "
+                      "is non-zero by construction - each component goes through `.max(1)` (directly, or in the closure of a `.map(..)` over the components) or is a "
+                      "literal >= 1. zarrs rejects a chunk extent of 0 (`expected a nonzero u64`), so an extent copied from a length makes new_trace fail for a "
+                      "zero-length coordinate or dimension in one backend while its sibling stores it (read off the source-level tree)")
+    n = 0
+    per_fn = {}
+    for b in sorted(F.hir_bodies(), key=lambda x: x.path):
+        if not b.hir or not b.path.startswith(("storage::zarr", "<storage::zarr")):
+            continue
+        lets = {}
+        for x in hir_walk(b.hir["value"]):
+            if x.get("k") == "Let" and isinstance(x.get("pat"), dict) and x["pat"].get("k") == "Binding" and x.get("init") is not None:
+                lets[x["pat"]["id"]] = x["init"]
+        for x in hir_walk(b.hir["value"]):
+            if x.get("k") != "Call" or not isinstance(x.get("f"), dict) or not str((x["f"].get("res") or {}).get("def", "")).endswith("ArrayBuilder::new"):
+                continue
+            args = x.get("args") or []
+            if len(args) < 2:
+                continue
+            n += 1
+            e = K.peel(args[1])
+            lid = K.local_id(e)
+            src = lets.get(lid, e) if lid is not None else e
+            guarded = False
+            for y in hir_walk(src):
+                if y.get("k") == "MethodCall" and y.get("method") == "max":
+                    lits = [K.num_lit(a) for a in (y.get("args") or [])]
+                    if any(v is not None and v >= 1 for v in lits):
+                        guarded = True
+            comps_lit = [K.num_lit(y) for y in hir_walk(src) if y.get("k") == "Lit"]
+            fn_ = b.path.split("::{closure")[0]
+            per_fn[fn_] = per_fn.get(fn_, 0) + 1
+            key = "%s:chunk-shape#%d" % (fn_, per_fn[fn_])
+            site = "%s @%s" % (b.path, loc(x["span"]))
+            if guarded:
+                R.ok("C14-R18", key, site, "chunk shape components pass through max(1)")
+            else:
+                R.bad("C14-R18", key, site, "the chunk shape is not guarded against 0 (no `.max(1)` on its components): a zero-length coordinate / dimension makes "
+                      "ArrayBuilder reject the array (`expected a nonzero u64`) and new_trace fail, while the sibling backend stores it")
+    feats = (([c for c in F.crates if c["name"] == "nuts_rs"] or [{}])[0].get("features") or [])
+    R.floor("C14-R18", 3 if "zarr" in feats else 0)
+
 def run(F, R, config="all"):
     r1(F, R)
     r2(F, R)
@@ -1212,6 +1256,7 @@ def run(F, R, config="all"):
     r14(F, R)
     r15(F, R)
     r16(F, R)
+    r18(F, R)
     # a write whose failure is dropped leaves fill values where recorded draws should be, without an error: no unread Result in the backends
     from . import c13
     def _storage_only(sub):
